@@ -420,4 +420,35 @@ theorem tagScan_sem (nm : String) (w : TW) :
   rw [handed_is_spec d fs w]
 
 end tagscan
+/-! ### the built-in ExtractHandlers -/
+
+theorem optStr_some (s : String) : optStr (some s) = some (.str s, ()) := rfl
+
+/-- the value scanner's handler, regenerated: no `prop` tag — not recognised; else `${key}` with the argument part (from the
+    first top-level comma on) appended unchanged; an out-of-range slice is the panic (`none`) -/
+theorem valueExtract_sem (o : VXOps) :
+    run (vxPrims o) Progs.scan_valueExtract [.ref 0 1, .ref 0 60] () = (valueExtractS o).map (fun r => (encExtract r, ())) := by
+  cases hl : o.lookup with
+  | none => go_simp [Progs.scan_valueExtract, vxPrims, vxFn, valueExtractS, encExtract, hl]
+  | some tv =>
+    by_cases hi : o.idx tv = -1
+    · have hb : (o.idx tv == -1) = true := by simpa using hi
+      go_simp [Progs.scan_valueExtract, vxPrims, vxFn, valueExtractS, encExtract, hl, hi, hb]
+    · have hb : (o.idx tv == -1) = false := by simpa using hi
+      cases h1 : o.sliceTo tv (o.idx tv) with
+      | none => go_simp [Progs.scan_valueExtract, vxPrims, vxFn, valueExtractS, encExtract, hl, hi, hb, h1, optStr]
+      | some k =>
+        cases h2 : o.sliceFrom tv (o.idx tv) with
+        | none => go_simp [Progs.scan_valueExtract, vxPrims, vxFn, valueExtractS, encExtract, hl, hi, hb, h1, h2, optStr]
+        | some rest => go_simp [Progs.scan_valueExtract, vxPrims, vxFn, valueExtractS, encExtract, hl, hi, hb, h1, h2, optStr]
+
+/-- the properties scanner's handler, regenerated: recognised exactly when the field's value implements
+    ConfigurationProperties; the tag text is what its `Prefix()` returns, the tag is left empty (so: `d.Tag`) -/
+theorem markerExtract_sem (marker : Option String) :
+    run (mxPrims marker) Progs.scan_markerExtract [.ref 0 1, .ref 0 60] () =
+      some (encExtract (match marker with | some p => ("", p, true) | none => ("", "", false)), ()) := by
+  cases marker with
+  | none => go_simp [Progs.scan_markerExtract, mxPrims, mxFn, encExtract]
+  | some p => go_simp [Progs.scan_markerExtract, mxPrims, mxFn, encExtract]
+
 end Ioc.Sem
